@@ -309,9 +309,16 @@ def f_untyped_parent(it, g, pos, spell):
     if not _has_kind(it, lambda k: k.startswith("from")):
         it.attrs.append(Instr(g.pick(["from_owned", "from_ref"]), "trait", ty=_fresh(g), hint=None, err=None, params=[]))
     k = g.mark()
-    f = Field(f"pp{k}", f"P{k}", [Instr("parent", "parent", container=None, fields=f"a{k}, [parent(b{k}, c{k})] q{k}", spelling=spell)])
+    form = g.pick(["one_level", "outer_of_two", "inner_of_two"])
+    if form == "one_level":
+        args = f"a{k}, [parent(b{k}, c{k})] q{k}"
+    elif form == "outer_of_two":
+        args = f"a{k}, [parent([parent(b{k}, c{k})] mid{k}: Mid{k})] q{k}"
+    else:
+        args = f"a{k}, [parent([parent(b{k}, c{k})] q{k})] out{k}: Out{k}"
+    f = Field(f"pp{k}", f"P{k}", [Instr("parent", "parent", container=None, fields=args, spelling=spell)])
     _ins(it.fields, pos, f)
-    return Fault("untyped_parent", "-", [f"Field 'q{k}' should have type here, e.g. 'q{k}: SomeStruct'"])
+    return Fault("untyped_parent", form, [f"Field 'q{k}' should have type here, e.g. 'q{k}: SomeStruct'"])
 
 
 def f_repeat_conflict(it, g, pos, spell):
